@@ -40,7 +40,7 @@ FOCUS = {
     "C11": dict(p_read=0.45, handles=0.2, weights={"update": 7, "update_all": 3, "insert_multiple": 5, "fail": 0.7, "bad": 0.6}),
 }
 
-MC_INVS = ["InvRebuild", "InvWF", "InvGetters", "InvSearch", "InvTyped"]
+MC_INVS = ["InvRebuild", "InvWF", "InvGetters", "InvSearch", "InvTyped", "InvLaws"]
 
 
 def design_check(thorough, alpha="mc"):
